@@ -187,7 +187,11 @@ impl IntrinsicInstrKind {
 /// The `usize`s are all indices into the encoded argument list.
 #[derive(Debug)]
 pub struct IntrinsicInstrAbiParts {
+    /// Number of args excluding padding.
     pub num_instr_args: usize,
+    /// Indices of padding in the encoded argument list.  (the other indices stored on this
+    /// struct count padding, but the argument lists built during lowering do not contain it)
+    pub padding_indices: Vec<usize>,
     /// Indices of args that should use the same logic as arguments in `ins_` instruction-call syntax.
     pub plain_args: Vec<usize>,
     /// Indices of args that are known registers.  These show up in intrinsics.
@@ -329,10 +333,13 @@ impl IntrinsicInstrAbiParts {
         let mut encodings = abi.arg_encodings().enumerate().collect::<Vec<_>>();
 
         let helper = IntrinsicAbiHelper { intrinsic, abi_loc };
+        let padding_indices = encodings.iter()
+            .filter(|(_, enc)| matches!(enc, ArgEncoding::Padding { .. }))
+            .map(|&(index, _)| index).collect();
         helper.find_and_remove_padding(&mut encodings);
 
         let mut out = IntrinsicInstrAbiParts {
-            num_instr_args: encodings.len(),
+            num_instr_args: encodings.len(), padding_indices,
             plain_args: vec![], outputs: vec![], jump: None, sub_id: None,
         };
 
